@@ -579,7 +579,15 @@ def check_bounds(ctx: Ctx) -> None:
         if isinstance(a, ast.Constant) and isinstance(a.value, float) and 0 < a.value < 0.5 and isinstance(b, ast.BinOp) and isinstance(b.op, ast.Sub) and isinstance(b.left, ast.Constant) and b.left.value == 1:
             br = _resolve(b.right, defs)
             ok = isinstance(br, ast.Constant) and br.value == a.value
-    ctx.ob("19.5-scipy", con, ok, "the numerical range of a SciPy distribution is (ppf(eps), ppf(1 - eps)) with one small eps", node=lo or f, stmt="num bounds = ppf(eps), ppf(1 - eps)")
+    if not ok and lo is not None and up is not None:
+        tl, tu = norm_stmt(lo.value), norm_stmt(up.value)
+        both_ppf = isinstance(lo.value, ast.Call) and isinstance(up.value, ast.Call) and last_attr(lo.value) == last_attr(up.value) == "ppf"
+        if isinstance(up.value, ast.Call) and last_attr(up.value) == "isf" and isinstance(lo.value, ast.Call) and last_attr(lo.value) == "ppf":
+            ok = norm_stmt(_resolve(lo.value.args[0], defs)) == norm_stmt(_resolve(up.value.args[0], defs))  # isf(q) == ppf(1 - q)
+        elif not both_ppf:
+            # a finite mathematical bound is its own numerical bound; tail quantiles are only needed for infinite supports
+            ok = "math_lower_bound" in tl and "math_upper_bound" in tu and "math_upper_bound" not in tl and "math_lower_bound" not in tu
+    ctx.ob("19.5-scipy", con, ok, "the numerical range of a SciPy distribution is made of tail quantiles (ppf(eps), ppf(1 - eps)) with one small eps, or of the finite mathematical bounds", node=lo or f, stmt="num bounds = tail quantiles or finite support")
     # OpenTURNS
     f = idx.method(OTD, "OTDistribution", "__set_bounds")
     con = cname(OTD, "OTDistribution", "__set_bounds")
@@ -774,6 +782,7 @@ def check_statistics(ctx: Ctx) -> None:
     emod = idx.module(ES)
     es = idx.cls(ES, "EmpiricalStatistics")
     pst = idx.cls(PST, "ParametricStatistics")
+    ddofs: dict = {}
     for m in SAME_FUNCTIONAL:
         fe, fp = es.methods.get(m), pst.methods.get(m)
         con = cname(PST, "ParametricStatistics", m)
@@ -806,7 +815,10 @@ def check_statistics(ctx: Ctx) -> None:
             stmt=f"{m}: empirical {'/'.join(sorted(etags))} vs parametric {'/'.join(sorted(ptags))}",
         )
         if m in ("compute_standard_deviation", "compute_variance"):
-            ctx.ob("19.7-estimators", cname(ES, "EmpiricalStatistics", m), not ekw.get(next(iter(etags), ""), {}).get("ddof"), "the empirical standard deviation and variance must use the same normalisation (default ddof)", node=fe, stmt=f"{m}: default ddof")
+            ddofs[m] = (ekw.get(next(iter(etags), ""), {}).get("ddof", "0"), fe)
+    a_, b_ = ddofs.get("compute_standard_deviation"), ddofs.get("compute_variance")
+    if a_ and b_:
+        ctx.ob("19.7-estimators", cname(ES, "EmpiricalStatistics", "compute_variance"), a_[0] == b_[0], f"the empirical variance (ddof={b_[0]}) is not the square of the empirical standard deviation (ddof={a_[0]})", node=b_[1], stmt="variance and standard deviation use the same ddof")
     # tails of compute_probability
     fe, fp = es.methods["compute_probability"], pst.methods["compute_probability"]
     sel = [n for n in walk_body(fe) if isinstance(n, ast.IfExp)]
@@ -910,7 +922,7 @@ WITNESSES = [
     {"name": "rename-keeps-old-distribution-key", "file": PS, "old": "            dict_ = self.distributions\n            dict_[new_name] = dict_.pop(current_name)\n", "new": "", "expect": "19.6"},
     {"name": "joint-in-sorted-order", "file": PS, "old": "                for name in self.uncertain_variables\n                for marginal in self.distributions[name].marginals", "new": "                for name in sorted(self.uncertain_variables)\n                for marginal in self.distributions[name].marginals", "expect": "19.6"},
     {"name": "marginals-share-first-parameter", "file": PS, "old": "            kwargs = {k: v[i] for k, v in parameters.items()}", "new": "            kwargs = {k: v[0] for k, v in parameters.items()}", "expect": "19.6"},
-    {"name": "empirical-std-unbiased", "file": ES, "old": "name: std(self.dataset.get_view(variable_names=name).to_numpy(), 0)", "new": "name: std(self.dataset.get_view(variable_names=name).to_numpy(), 0, ddof=1)", "expect": "19.7"},
+    {"name": "empirical-std-unbiased-variance-biased", "file": ES, "old": "name: std(self.dataset.get_view(variable_names=name).to_numpy(), 0)", "new": "name: std(self.dataset.get_view(variable_names=name).to_numpy(), 0, ddof=1)", "expect": "19.7"},
     {"name": "parametric-variance-is-std", "file": PST, "old": "                distribution.value.standard_deviation**2", "new": "                distribution.value.standard_deviation", "expect": "19.7"},
     {"name": "parametric-tail-swapped", "file": PST, "old": "func = lambda x: 1 - x if greater else x", "new": "func = lambda x: x if greater else 1 - x", "expect": "19.7"},
     {"name": "empirical-tail-swapped", "file": ES, "old": "        operator = ge if greater else le\n        return {\n            name: mean(\n                operator(", "new": "        operator = le if greater else ge\n        return {\n            name: mean(\n                operator(", "expect": "19.7"},
